@@ -37,6 +37,21 @@ SPACES2 = [
 ]
 FIXED2 = [['u', 'v', '*'], ['gu', 'gv', 'inner'], ['ux', 'v', '*'], ['f', 'val', 'u', '*', 'v', '*'], ['uxp', 'vyp', '*']]
 
+# vector-valued basis functions: (tokens, components of u, components of v); blocked layout of the assembled matrix
+FIXEDV = [
+    (['uvec', 'vvec', 'inner'], 2, 2),                                  # vector mass
+    (['divu', 'divv', '*'], 2, 2),                                      # div-div
+    (['Gu', 'Gv', 'minner'], 2, 2),                                     # vector Laplace
+    (['Gu', 'Gu', 'T', 'm+', 'Gv', 'minner'], 2, 2),                    # elasticity-type: (grad u + grad u^T) : grad v
+    (['divu', 'v', '*'], 2, 1),                                         # divergence constraint (non-square blocks)
+    (['ux', 'w1', '*'], 1, 2),                                          # scalar trial, vector test
+    (['g', 'uvec', 'inner', 'w0', '*'], 2, 2),                          # coefficient field, single test component
+    (['A', 'uvec', 'matvec', 'vvec', 'inner'], 2, 2),                   # constant matrix coefficient (non-symmetric coupling)
+    (['u1', 'w0', '*', 'u0', 'w1', '*', '-'], 2, 2),                    # skew coupling of components
+    (['g', 'vvec', 'inner'], 1, 2),                                     # vector load (linear form)
+    (['f', 'val', 'divv', '*'], 1, 2),                                  # linear form with the divergence of the test function
+]
+
 FIELDS = {
     2: dict(f=[[1, 2], [1, 3], [-1, 4]], f2=[[2, 1], [-1, 2], [1, 5]], h=[[1, 1], [1, 2], [-2, 3]],
             g=[[[1, 1], [1, 2], [0, 1]], [[-1, 2], [0, 1], [2, 3]]], A=[[[2, 1], [1, 2]], [[-1, 3], [3, 2]]], c=[3, 2]),
@@ -114,10 +129,10 @@ def run(ctx):
     rng = random.Random(ctx.seed)
     nforms = 120 if ctx.thorough else 10
     # 1. generate
-    consts = dict(Dim=2, MaxTok=3, MaxStack=3, Rich=True, Poly=True)
+    consts = dict(Dim=2, MaxTok=3, MaxStack=3, Rich=True, Poly=True, NcU=1, NcV=1)
     cfg = write_cfg(ctx.scratch / 'gen_poly3.cfg', consts, invariants=['TypeOK'])
     r1 = ctx.tlc('VFormGen', cfg, workers=4)
-    consts2 = dict(Dim=2, MaxTok=9, MaxStack=3, Rich=True, Poly=True)
+    consts2 = dict(Dim=2, MaxTok=9, MaxStack=3, Rich=True, Poly=True, NcU=1, NcV=1)
     cfg2 = write_cfg(ctx.scratch / 'gen_polysim.cfg', consts2, invariants=['TypeOK'])
     r2 = ctx.tlc('VFormGen', cfg2, workers=4, simulate=30000 if not ctx.thorough else 120000, depth=14, seed=ctx.seed + 3)
     gen = {}
@@ -163,6 +178,35 @@ def run(ctx):
                               twospace=True, A=[[[x, 1] for x in row] for row in sp['A']], t=[[x, 1] for x in sp['t']],
                               tokens=t, bilinear=True, fields=FIELDS[2], pairs=[list(p) for p in sorted(prs)],
                               shape=[n1, n0]))
+    # vector-valued trial / test functions (blocked layout: flat index = component * N + function)
+    vforms = [(t, a, b) for t, a, b in FIXEDV]
+    if True:
+        for nu_, nv_ in ((2, 2), (2, 1), (1, 2)):
+            cv = write_cfg(ctx.scratch / ('gen_vec%d%d.cfg' % (nu_, nv_)),
+                           dict(Dim=2, MaxTok=8, MaxStack=3, Rich=True, Poly=True, NcU=nu_, NcV=nv_), invariants=['TypeOK'])
+            rv = ctx.tlc('VFormGen', cv, workers=2, simulate=6000 if not ctx.thorough else 40000, depth=13, seed=ctx.seed + 7 + nu_ * 3 + nv_)
+            cand = {tuple(f['tokens']): f for f in rv.recs('FORM') if f['deg'][1] == 1 and f['bilinear'] and len(f['tokens']) >= 4}
+            cand = [cand[k] for k in sorted(cand)]
+            rng.shuffle(cand)
+            for f in cand[:(12 if ctx.thorough else 2)]:
+                vforms.append((list(f['tokens']), nu_, nv_))
+    for j, (t, nu_, nv_) in enumerate(vforms):
+        sp = SPACES[2][j % len(SPACES[2])]
+        shape = [len(kk) - p - 1 for kk, p in zip(sp['kvs'], sp['ps'])]
+        n = int(np.prod(shape))
+        bil = any(x in ('u', 'ux', 'uy', 'uxp', 'uxx', 'uxy', 'gu', 'gup', 'Hu', 'u0', 'u1', 'divu', 'uvec', 'Gu') for x in t)
+        base = pairs_for(shape, sp['ps'], bil, rng)
+        prs = set()
+        for q, (i, jj) in enumerate(base):      # spread the entries over all component blocks
+            cvv, cuu = q % nv_, (q // nv_) % nu_
+            prs.add((cvv * n + i, cuu * n + jj if bil else 0))
+        cases.append(dict(id=700 + j, dim=2, kvs=sp['kvs'], ps=sp['ps'], kvs1=sp['kvs'], ps1=sp['ps'], twospace=False,
+                          ncu=nu_ if bil else 1, ncv=nv_, A=[[[x, 1] for x in row] for row in sp['A']],
+                          t=[[x, 1] for x in sp['t']], tokens=t, bilinear=bil, fields=FIELDS[2],
+                          pairs=[list(p) for p in sorted(prs)], shape=[nv_ * n, nu_ * n if bil else 1]))
+    for c in cases:
+        c.setdefault('ncu', 1)
+        c.setdefault('ncv', 1)
     smoke = [dict(id=1000 + i, dim=2, kvs=SPACES[2][0]['kvs'], ps=SPACES[2][0]['ps'],
                   A=[[[x, 1] for x in row] for row in SPACES[2][0]['A']], t=[[x, 1] for x in SPACES[2][0]['t']],
                   expr=e, fields=FIELDS[2]) for i, e in enumerate(NONPOLY[:(8 if ctx.thorough else 3)])]
@@ -196,6 +240,8 @@ def run(ctx):
     for c in cases:
         res = results[c['id']]
         lab = vf_gen.render(c['tokens']) + ' [dim %d, degrees %s]' % (c['dim'], c['ps'])
+        if c['ncu'] > 1 or c['ncv'] > 1:
+            lab += ' [components u:%d v:%d]' % (c['ncu'], c['ncv'])
         if c['twospace']:
             lab += ' [two spaces: test degrees %s %s trial degrees]' % (c['ps1'], '>' if max(c['ps1']) > max(c['ps']) else '<=')
         nontriv = c['bilinear'] and len(c['tokens']) > 3
